@@ -14,7 +14,8 @@
 (*                                                                         *)
 (* Index forms (Types.tla, "GETELEMENTPTR"): integers of width 1, 8, 32,   *)
 (* 64, 128; zeroinitializer, undef, poison as scalar, fixed and scalable   *)
-(* vector; splat and non-splat constant vectors; constant expressions      *)
+(* vector; splat and non-splat constant vectors, constant vectors with an  *)
+(* undef or constant-expression element; constant expressions              *)
 (* (ptrtoint, add of ptrtoint, vector ptrtoint); instruction operands      *)
 (* (scalar, fixed vector, scalable vector); inrange-wrapped integers.      *)
 (* ssa indices exist only in the instruction, inrange only in the constant *)
@@ -74,6 +75,8 @@ FormsAll ==
   \cup { Idx("splat", w, 1, 2, FALSE) : w \in {32, 64} }
   \cup { Idx("splat", 32, 0, 2, FALSE) }
   \cup { Idx("nonsplat", 64, -1, 2, FALSE) }
+     \* constant vectors with an undef / a constant-expression element
+  \cup { Idx("elemundef", 64, -1, 2, FALSE), Idx("elemcexpr", 64, -1, 2, FALSE) }
   \cup { Idx(f, 64, -1, n, FALSE) : f \in {"undef", "poison"}, n \in {0, 2} }
   \cup { Idx(f, 64, -1, 2, TRUE) : f \in {"undef", "poison"} }
   \cup { Idx("cexpr", 64, -1, 0, FALSE), Idx("cexpr", 64, -1, 2, FALSE), Idx("cexpr2", 64, -1, 0, FALSE) }
